@@ -86,7 +86,8 @@ PROPS = {
         "theorems": ["DL.C16_rows", "DL.C16_order", "DL.C16_stable", "DL.C16_shape", "DL.C16_default", "DL.C16_normalize",
                      "DL.C16_largest", "DL.C16_scale", "DL.C16_refuse", "DL.C16_columns", "DL.C16_sig7", "DL.C16_shown",
                      "DL.floorLog10_spec", "DL.roundHalfEven_spec", "DL.C16_value_read_back", "DL.C16_layout_exact",
-                     "DL.renderSig7_value", "DL.fmtG7_value"],
+                     "DL.renderSig7_value", "DL.fmtG7_value", "DL.C16_shown_value", "DL.C16_shown_monotone", "DL.shownVal_mono",
+                     "DL.roundHalfEven_mono"],
         "partial": ["C16_sig7: the seven digits shown are a correct rounding of the exact quotient (10^6 <= n < 10^7, error at most half a unit "
                     "of the seventh digit; decimal exponent from digit counts, round half even); C16_layout_exact / C16_value_read_back: the "
                     "text they are laid out as (positional or scientific, trailing zeros dropped, optional minus) reads back as exactly "
